@@ -77,3 +77,40 @@ pub fn vp_sum_u64(v: &Vec<u64>) -> (r: u64)
 #[verifier::external_type_specification]
 #[verifier::external_body]
 pub struct ExIoError(std::io::Error);
+
+// ---- `(a..b).find(|&i| P)` and `(a..b).rev().find(|&i| P)` (iterator adapters over integer ranges, std): PROVED loops taking the
+// closure of the source; the overlay adds a type and a spec to the closure's parameter list and a ghost predicate p that the
+// closure is shown to compute
+pub fn vp_find_up<F: Fn(u32) -> bool>(a: u32, b: u32, f: F, Ghost(p): Ghost<spec_fn(u32) -> bool>) -> (r: Option<u32>)
+    requires forall|i: u32| a <= i < b ==> call_requires(f, (i,)), forall|i: u32, ret: bool| call_ensures(f, (i,), ret) ==> ret == p(i)
+    ensures
+        r is Some ==> a <= r->Some_0 < b && p(r->Some_0) && forall|j: u32| a <= j < r->Some_0 ==> !(#[trigger] p(j)),
+        r is None ==> forall|j: u32| a <= j < b ==> !(#[trigger] p(j))
+{
+    let mut i = a;
+    while i < b
+        invariant a <= i, a <= b ==> i <= b, forall|k: u32| a <= k < b ==> call_requires(f, (k,)), forall|i: u32, ret: bool| call_ensures(f, (i,), ret) ==> ret == p(i), forall|j: u32| a <= j < i ==> !(#[trigger] p(j))
+        decreases (if i < b { b - i } else { 0 })
+    {
+        if f(i) { return Some(i); }
+        i += 1;
+    }
+    None
+}
+pub fn vp_find_down<F: Fn(u32) -> bool>(a: u32, b: u32, f: F, Ghost(p): Ghost<spec_fn(u32) -> bool>) -> (r: Option<u32>)
+    requires forall|i: u32| a <= i < b ==> call_requires(f, (i,)), forall|i: u32, ret: bool| call_ensures(f, (i,), ret) ==> ret == p(i)
+    ensures
+        r is Some ==> a <= r->Some_0 < b && p(r->Some_0) && forall|j: u32| r->Some_0 < j < b ==> !(#[trigger] p(j)),
+        r is None ==> forall|j: u32| a <= j < b ==> !(#[trigger] p(j))
+{
+    if b <= a { return None; }
+    let mut i = b;
+    while i > a
+        invariant a <= i <= b, forall|k: u32| a <= k < b ==> call_requires(f, (k,)), forall|i: u32, ret: bool| call_ensures(f, (i,), ret) ==> ret == p(i), forall|j: u32| i <= j < b ==> !(#[trigger] p(j))
+        decreases i
+    {
+        i -= 1;
+        if f(i) { return Some(i); }
+    }
+    None
+}
